@@ -175,7 +175,10 @@ class ObservableResource(Resource, interfaces.ObservableResource):
         should be sent to observers."""
 
         for o in self._observations:
-            o.trigger(response)
+            # Every observer gets a message of its own: token, message ID,
+            # remote and Observe number are filled in per registration (and
+            # possibly only when the message leaves the backlog)
+            o.trigger(None if response is None else response.copy())
 
     def get_link_description(self):
         link = super(ObservableResource, self).get_link_description()
